@@ -369,6 +369,13 @@ def execute(trace, ctx=None):
                     raise Violation('adjust', '%s adj=%s = %s, day-by-day says %s' % (what, adj or ref.adj, got, exp), k)
                 if (adj or ref.adj) == 'm' and ref.adjust(t, 'f').month != t.month:
                     res.probe('modified-following-falls-back')
+                if k % 4 == 0:
+                    # the documented container forms: a list / tuple / dict of dates is adjusted element-wise
+                    t2 = t + 3 * DAY
+                    gl = lib(lambda: cal.adjust([t, t2], adj), what)
+                    gd = lib(lambda: cal.adjust({'x': t, 'y': t2}, adj), what)
+                    if list(gl) != [exp, ref.adjust(t2, adj)] or dict(gd) != {'x': exp, 'y': ref.adjust(t2, adj)}:
+                        raise Violation('adjust', '%s on a list/dict of dates = %s / %s' % (what, gl, gd), k)
             elif q in ('add', 'dt_bump'):
                 n, adj = op['n'], op.get('adj')
                 exp = ref.add(t, n, adj)
